@@ -13,7 +13,7 @@ Property text, clause by clause:
   (b) "No connection is accepted after the signal"     → `noAcceptAfterSignal`
   (c) "the serve future resolves only after all connections have closed"
                                                        → `resolvedOnlyAfterClose`
-  (d) "and does resolve once they have"                → `resolvesOnceClosed`
+  (d) "and does resolve once they have"                → `resolvesOnceClosed`, `shutdownCompletes`
 -/
 namespace Spec.Shutdown
 
@@ -86,6 +86,12 @@ def resolvedOnlyAfterClose (resolved : Bool) (cs : List ConnView) (ks : List Cal
 has been left to finish, every accepted connection is closed — then the future has resolved. -/
 def resolvesOnceClosed (shutdownRequested resolved : Bool) (cs : List ConnView) : Bool :=
   !(shutdownRequested && allClosed cs) || resolved
+
+/-- (d), the graceful part: once shutdown has been requested and every handler has been left to
+finish, the server closes its connections itself — no client has to go away — and the future
+resolves. -/
+def shutdownCompletes (shutdownRequested handlersDone resolved : Bool) : Bool :=
+  !(shutdownRequested && handlersDone) || resolved
 
 /-- without a request to shut down the future stays pending -/
 def noSpuriousResolve (shutdownRequested resolved : Bool) : Bool := shutdownRequested || !resolved
